@@ -119,3 +119,11 @@ PROPS = {
         'assumptions': ['Spec implements the README search semantics; regex trees with nil-condition children inside And/Or and unknown regex node types are not generated (no documented meaning)'],
     },
 }
+
+CURSOR_ASSUME = ['one P, cooperative scheduling at synchronisation operations', 'SimDisk handles follow the DataStore handle contract; reads are held open at gates so concurrency gauges saturate']
+for _pid, _rule in [
+    ('C20', 'seeded S-cursor runs: 1-5 concurrent queries over a pre-built multi-file store with prompt/slow/stalled/closing/abandoning consumers, Close from a second goroutine, context cancellation and deadlines at any step, OpenFile/Read/iterator faults, never-started/running/stopped engines; non-trivial = some query reached Next()==false; distinct = distinct decision sequences'),
+    ('C21', 'same runs; per-handle and per-iterator monitors in SimDisk/SimMeta, spawn-path liveness of query goroutines and semaphore occupancy checked at the quiescent point after each terminal call; non-trivial = a started query reached its terminal state'),
+    ('C22', 'same runs with MaxQueryConcurrency in {1,2,3,8}; gauge of in-progress query reads checked at every step, liveness of non-stalled queries checked in a fair fault-free phase; non-trivial = the gauge reached MaxQueryConcurrency'),
+]:
+    PROPS[_pid] = {'level': 'exploration', 'quick': [('cursor:general', 5000)], 'thorough': [('cursor:general', 250000)], 'rule': _rule, 'assumptions': CURSOR_ASSUME}
